@@ -242,8 +242,9 @@ static void run_match(char *line) {
     static char ph[4096], hh[4096]; int n = 0, dflt = 0; ph[0] = hh[0] = 0;
     sscanf(line, "MATCH %4095s %4095s %d %d", ph, hh, &n, &dflt);
     unsigned char *p = malloc(strlen(ph) / 2 + 1), *h = malloc(strlen(hh) / 2 + 1);
-    size_t pl = ph[0] == '-' ? 0 : unhex(ph, p); p[pl] = 0; size_t hl = hh[0] == '-' ? 0 : unhex(hh, h);
-    char *pc = exact(p, pl + 1); char *hc = exact(h, hl);
+    size_t pl = ph[0] == '-' ? 0 : unhex(ph, p); p[pl] = 0; size_t hl = hh[0] == '-' ? 0 : unhex(hh, h); h[hl] = 0;
+    /* the header is followed by a NUL, as it is in the input buffer and in a line handed to SCPI_Parse */
+    char *pc = exact(p, pl + 1); char *hc = exact(h, hl + 1);
     oput("MATCH", 5);
     if (n < 0) { int r = matchCommand(pc, hc, hl, NULL, 0, dflt); oprintf(" %d", r ? 1 : 0); }
     else { int32_t *a = malloc(4 * (n ? n : 1)); for (int i = 0; i < n; i++) a[i] = -99; int r = matchCommand(pc, hc, hl, a, n, dflt); oprintf(" %d:", r ? 1 : 0); for (int i = 0; i < n; i++) oprintf("%s%d", i ? "," : "", a[i]); free(a); }
